@@ -109,6 +109,14 @@ theorem c20_R.setPtyn {sn sw : State} (h : c20_R T P sn sw) {t t' : Text} (ht : 
   ⟨h.used, h.temp, h.set, h.lastRt, h.cbs, h.ud, h.termPs, h.termRt0, h.termRt1, h.termPtyn,
     h.ps, h.rt0, h.rt1, ht, h.pset⟩
 
+/-- `ax.pu` with the two (equal) settings spelled differently -/
+theorem c20_pu (ax : c20_Ax cfgn cfgw T P W FR EL) {tn tw : Text} {setn setw : Settings} (hs : setn = setw)
+    (id : TextId) (w eb ex pos : Nat) (ht : T tn tw) (hp : P setn) (hw : W w) :
+    T (parserUpdate cfgn setn tn id w eb ex pos).1 (parserUpdate cfgw setw tw id w eb ex pos).1 ∧
+    FR (parserUpdate cfgn setn tn id w eb ex pos).2 (parserUpdate cfgw setw tw id w eb ex pos).2 := by
+  subst hs
+  exact ax.pu setn id w eb ex pos ht hp hw
+
 /-! ## combinators -/
 
 theorem c20_sim_id (ax : c20_Ax cfgn cfgw T P W FR EL) : c20_Sim T P EL (fun s => (s, [])) (fun s => (s, [])) :=
@@ -189,7 +197,8 @@ theorem c20_sim_addAf (ax : c20_Ax cfgn cfgw T P W FR EL) (v : Nat) :
       refine ⟨hR, ?_⟩
       show EL (if (afSet sn.used.af v).2 then emit _ .af (.af (87500 + v * 100)) else [])
         (if (afSet sw.used.af v).2 then emit _ .af (.af (87500 + v * 100)) else [])
-      rw [h.used]
+      have e2 : (afSet sn.used.af v).2 = (afSet sw.used.af v).2 := by rw [h.used]
+      rw [e2]
       cases (afSet sw.used.af v).2
       · exact ax.el_nil
       · exact ax.el_emit _ _ hR rfl
@@ -267,9 +276,8 @@ theorem c20_sim_group0 (ax : c20_Ax cfgn cfgw T P W FR EL) (g : Group) (hw : W g
   refine c20_sim_seq ax (c20_sim_seq ax ?_ ?_) ?_
   · exact c20_sim_ite _ (c20_sim_seq ax (c20_sim_setField ax .ta _) (c20_sim_setField ax .ms _)) (c20_sim_id ax)
   · intro sn sw h
-    have hu := ax.pu sn.set .ps g.d g.eb g.ed (2 * (g.b % 4)) h.ps h.pset hw
-    have hu' : T (c15_g0u cfgn g sn).1 (c15_g0u cfgw g sw).1 ∧ FR (c15_g0u cfgn g sn).2 (c15_g0u cfgw g sw).2 := by
-      unfold c15_g0u; rw [← h.set]; exact hu
+    have hu' : T (c15_g0u cfgn g sn).1 (c15_g0u cfgw g sw).1 ∧ FR (c15_g0u cfgn g sn).2 (c15_g0u cfgw g sw).2 :=
+      c20_pu ax h.set .ps g.d g.eb g.ed (2 * (g.b % 4)) h.ps h.pset hw
     have hR := h.setPs hu'.1
     exact ⟨hR, ax.el_text _ _ _ _ hR rfl hu'.2⟩
   · exact c20_sim_ite _ (c20_sim_seq ax (c20_sim_addAf ax _) (c20_sim_addAf ax _)) (c20_sim_id ax)
@@ -282,9 +290,8 @@ theorem c20_sim_group10 (ax : c20_Ax cfgn cfgw T P W FR EL) (g : Group) (hw : g.
   cases hv : g.versionB
   · have hw' := hw hv
     simp only [Bool.not_false, if_true]
-    have hu1 := ax.pu sn.set .ptyn g.c g.eb g.ec (4 * (g.b % 2)) h.ptyn h.pset hw'.1
-    have hu2 := ax.pu sn.set .ptyn g.d g.eb g.ed (4 * (g.b % 2) + 2) hu1.1 h.pset hw'.2
-    rw [← h.set]
+    have hu1 := c20_pu ax h.set .ptyn g.c g.eb g.ec (4 * (g.b % 2)) h.ptyn h.pset hw'.1
+    have hu2 := c20_pu ax h.set .ptyn g.d g.eb g.ed (4 * (g.b % 2) + 2) hu1.1 h.pset hw'.2
     have hR := h.setPtyn hu2.1
     exact ⟨hR, ax.el_text _ _ _ _ hR rfl (ax.fr_or hu1.2 hu2.2)⟩
   · simp only [Bool.not_true, Bool.false_eq_true, if_false]
@@ -322,14 +329,13 @@ theorem c20_sim_group2 (ax : c20_Ax cfgn cfgw T P W FR EL) (g : Group)
     have hu : T (c15_g2u cfgn g s2n).2.1 (c15_g2u cfgw g s2w).2.1 ∧
         FR ((c15_g2u cfgn g s2n).1.2 || (c15_g2u cfgn g s2n).2.2) ((c15_g2u cfgw g s2w).1.2 || (c15_g2u cfgw g s2w).2.2) := by
       unfold c15_g2u
-      rw [← hpre.set]
       cases hv : g.versionB
       · simp only [Bool.not_false, if_true]
-        have hu1 := ax.pu s2n.set .rt g.c g.eb g.ec (4 * (g.b % 16)) (hpre.rt (g.b / 16 % 2)) hpre.pset (hw.1 hv)
-        have hu2 := ax.pu s2n.set .rt g.d g.eb g.ed (4 * (g.b % 16) + 2) hu1.1 hpre.pset hw.2
+        have hu1 := c20_pu ax hpre.set .rt g.c g.eb g.ec (4 * (g.b % 16)) (hpre.rt (g.b / 16 % 2)) hpre.pset (hw.1 hv)
+        have hu2 := c20_pu ax hpre.set .rt g.d g.eb g.ed (4 * (g.b % 16) + 2) hu1.1 hpre.pset hw.2
         exact ⟨hu2.1, ax.fr_or hu1.2 hu2.2⟩
       · simp only [Bool.not_true, Bool.false_eq_true, if_false]
-        have hu2 := ax.pu s2n.set .rt g.d g.eb g.ed (2 * (g.b % 16)) (hpre.rt (g.b / 16 % 2)) hpre.pset hw.2
+        have hu2 := c20_pu ax hpre.set .rt g.d g.eb g.ed (2 * (g.b % 16)) (hpre.rt (g.b / 16 % 2)) hpre.pset hw.2
         exact ⟨hu2.1, ax.fr_or (ax.fr_refl false) hu2.2⟩
     have hR : c20_R T P (c15_g2upd cfgn g s2n) (c15_g2upd cfgw g s2w) := hpre.setRt _ hu.1
     refine ⟨hR, ?_⟩
@@ -349,13 +355,13 @@ theorem c20_sim_dispatch (ax : c20_Ax cfgn cfgw T P W FR EL) (g : Group) (hw : c
   by_cases h0 : g.type = 0
   · simp only [h0, if_true]; exact c20_sim_group0 ax g (hw.1 h0) sn sw h
   · by_cases h1 : g.type = 1
-    · simp only [h0, h1, if_true, if_false]; exact c20_sim_group1 ax g sn sw h
+    · simp only [h1, if_true]; exact c20_sim_group1 ax g sn sw h
     · by_cases h2 : g.type = 2
-      · simp only [h0, h1, h2, if_true, if_false]; exact c20_sim_group2 ax g (hw.2.1 h2) sn sw h
+      · simp only [h2, if_true]; exact c20_sim_group2 ax g (hw.2.1 h2) sn sw h
       · by_cases h4 : g.type = 4
-        · simp only [h0, h1, h2, h4, if_true, if_false]; exact c20_sim_group4 ax g sn sw h
+        · simp only [h4, if_true]; exact c20_sim_group4 ax g sn sw h
         · by_cases h10 : g.type = 10
-          · simp only [h0, h1, h2, h4, h10, if_true, if_false]; exact c20_sim_group10 ax g (hw.2.2 h10) sn sw h
+          · simp only [h10, if_true]; exact c20_sim_group10 ax g (hw.2.2 h10) sn sw h
           · simp only [h0, h1, h2, h4, h10, if_false]; exact ⟨h, ax.el_nil⟩
 
 theorem c20_sim_process (ax : c20_Ax cfgn cfgw T P W FR EL) (g : Group) (hw : c20_GW W g) :
@@ -440,5 +446,30 @@ theorem c20_run (ax : c20_Ax cfgn cfgw T P W FR EL) (ops : List Op)
   c20_runFrom ax ops hops initState initState (c20_R_init ax)
 
 end generic
+
+/-! ## `updateSingle` with the configuration-independent rejection tests folded into one -/
+
+/-- the rejection tests that precede the same-data test (none of them looks at `conv`) -/
+def c20_pre (lvl b ei ed : Nat) (prog : Bool) : Bool :=
+  (prog && decide (lvl < calcError ei ed)) || (b == 0x0D && (ei != 0 || ed != 0)) ||
+  (b != 0x0D && decide (b < 0x20)) || (decide (0x7F ≤ b) && (ei != 0 || ed != 0))
+
+theorem c20_updateSingle_none (cfg : Cfg) (t : Text) (b ei ed pos : Nat) (prog : Bool) (hc : t[pos]? = none) :
+    updateSingle cfg t b ei ed pos prog = (t, .oob) := by
+  unfold updateSingle; rw [hc]
+
+theorem c20_updateSingle_some (cfg : Cfg) (t : Text) (b ei ed pos : Nat) (prog : Bool) (cell : Cell)
+    (hc : t[pos]? = some cell) :
+    updateSingle cfg t b ei ed pos prog =
+      if c20_pre cell.lvl b ei ed prog = true then (t, .rejected)
+      else if cell.ch = conv cfg b ∧ cell.lvl ≤ calcError ei ed then (t, .rejected)
+      else (t.set pos ⟨conv cfg b, calcError ei ed⟩, .stored) := by
+  unfold updateSingle c20_pre; rw [hc]
+  simp only []
+  cases (prog && decide (cell.lvl < calcError ei ed))
+    <;> cases (b == 0x0D && (ei != 0 || ed != 0))
+    <;> cases (b != 0x0D && decide (b < 0x20))
+    <;> cases (decide (0x7F ≤ b) && (ei != 0 || ed != 0))
+    <;> simp
 
 end RDS
